@@ -67,8 +67,10 @@ var (
 		// compound code containing identifiers spelled like the metavariables; generic instantiations
 		"g(x)", "g(z)", "x + 1", "z + 1", "Pair[int, string]", "p.List[int]",
 		// pairs that differ only inside braces (abbreviated by summary printers)
-		"T{1, 2}", "T{3, 4}", "func() int { return 1 }", "func() int { return 2 }"}
-	c02IdentFill = []string{"a", "b", "x", "n", "q"}
+		"T{1, 2}", "T{3, 4}", "func() int { return 1 }", "func() int { return 2 }",
+		// identifiers outside ASCII
+		"größe", "π.σ", "größe + 1"}
+	c02IdentFill = []string{"a", "b", "x", "n", "q", "größe", "π"}
 	c02TypeFill  = []string{"int", "b.T", "[]int", "x", "q", "n"}
 )
 
